@@ -179,7 +179,8 @@ def main(argv=None):
             continue
         _, cd = shard_env(s.get("mode", {}))
         marker = os.path.join(cd, "warm-%s-%s" % (pid, tier))
-        if not os.path.exists(marker):
+        # a thorough run right after a quick run finds the kernels compiled already: do not serialise a long shard
+        if not os.path.exists(marker) and not (tier == "thorough" and os.path.exists(os.path.join(cd, "warm-%s-quick" % pid))):
             warm.append((s, marker))
     if warm and not a.inproc:
         with ThreadPoolExecutor(max_workers=len(warm)) as ex:
